@@ -352,6 +352,13 @@ func (t *guardTr) callActs(e ast.Expr) []string {
 			if fd := t.helperDecl(c, name); fd != nil {
 				return []string{".scope \"\" " + t.inlineHelper(fd, c)}
 			}
+			if t.v2 && t.cfg != nil && inList(t.cfg.lfull, name) {
+				var args []string
+				for _, a := range c.Args {
+					args = append(args, t.normExpr(a))
+				}
+				return []string{".act " + leanStr(name+"("+strings.Join(args, ",")+")")}
+			}
 			return []string{".act " + leanStr(name)}
 		}
 		if t.v2 {
